@@ -395,6 +395,12 @@ func body(threads []string) func() {
 // after all threads ended (uncontrolled, sequential)
 func finish(rep *vevid.Report, scen string, x *vsched.Result) {
 	defer teardown()
+	defer func() {
+		if r := recover(); r != nil {
+			rep.Violate(vevid.Violation{Clause: "panic", Scenario: scen, Site: "kv", Detail: fmt.Sprintf("panic in kv code after the explored schedule: %v", r),
+				Replay: replay{Threads: strings.Split(strings.TrimPrefix(scen, "threads="), ","), Choices: x.Choices()}})
+		}
+	}()
 	viol := func(clause, site, detail string) {
 		rep.Violate(vevid.Violation{Clause: clause, Scenario: scen, Site: site, Detail: detail + "\nlog: " + strings.Join(x.Log, " | "),
 			Replay: replay{Threads: strings.Split(strings.TrimPrefix(scen, "threads="), ","), Choices: x.Choices()}})
@@ -551,6 +557,13 @@ func main() {
 			if len(x.Points) > 0 {
 				rep.DistinctNontrivial++
 			}
+		}
+		e.Discard = func(x *vsched.Result) {
+			if !x.Deadlock && !x.Horizon {
+				kv.VerifFamilyWait(w.fam)
+				_ = kv.VerifCloseStore(w.store)
+			}
+			teardown()
 		}
 		if si == 0 && f.Shard == 0 {
 			// determinism proof: replay the default schedule twice and compare the observation logs
